@@ -249,6 +249,29 @@ mut("C10", "yaxis-not-unit", E + "Models/Beam/_beam.py", "            yAxis = No
 same("C10", "yaxis-two-steps", E + "Models/Beam/_beam.py", "            zAxis = Normalize(np.cross(xAxis, yAxis))", "            zAxis = np.cross(xAxis, yAxis)\n            zAxis = Normalize(zAxis)")
 mut("C15", "load-mesh-swapped-kw", E + "FEM/_mesh.py", "            elements=elements, nodes=nodes, rank=rank, ghostElements=ghostElements", "            elements=nodes, nodes=elements, rank=rank, ghostElements=ghostElements", "R15.5")
 same("C15", "load-mesh-unpack", E + "FEM/_mesh.py", "        connect, coordinates = data[0]\n", "        (connect, coordinates), _part, _tags = data\n")
+mut("C11", "axis-guard-one-sided", E + "Models/Elastic/_laws.py", '        assert abs(axis_l @ axis_t) <= 1e-12, "axis1 and axis2 must be perpendicular"', '        assert axis_l @ axis_t <= 1e-12, "axis1 and axis2 must be perpendicular"', "R11.7")
+mut("C11", "axis-guard-before-normalising", E + "Models/Elastic/_laws.py", "        axis_1 = Normalize(AsCoords(axis_1))\n        axis_2 = Normalize(AsCoords(axis_2))\n", "        axis_1 = AsCoords(axis_1)\n        axis_2 = AsCoords(axis_2)\n", "R11.7")
+same("C11", "axis-guard-two-comparisons", E + "Models/Elastic/_laws.py", '        assert abs(axis1 @ axis2) <= 1e-12, "axis1 and axis2 must be perpendicular"', '        assert -1e-12 <= axis1 @ axis2 <= 1e-12, "axis1 and axis2 must be perpendicular"')
+same("C11", "axis-normalised-at-store", E + "Models/Elastic/_laws.py", "        self.__axis_l = axis_l\n        self.__axis_t = axis_t\n", "        self.__axis_l = Normalize(axis_l)\n        self.__axis_t = Normalize(axis_t)\n")
+mut("C08", "candidates-closest-node-only", E + "FEM/_group_elem.py", "        unique_elements = np.unique(np.concatenate((all_elements, inSphere)))", "        unique_elements = np.unique(all_elements)", "R8.14")
+mut("C08", "candidates-half-radius", E + "FEM/_group_elem.py", "        radius_e *= 1 + 1e-6\n", "        radius_e *= 0.5\n", "R8.14")
+same("C08", "candidates-wider-margin", E + "FEM/_group_elem.py", "        radius_e *= 1 + 1e-6\n", "        radius_e *= 1 + 1e-3\n")
+mut("C12", "transpose-ignores-field-rank", E + "FEM/_linalg.py", "    if isinstance(mat, FeArray) and mat._ndim < 2:\n", "    if False:\n", "R12.9")
+same("C12", "transpose-rank-via-T", E + "FEM/_linalg.py", "    if isinstance(mat, FeArray) and mat._ndim < 2:\n        # the (Ne, nPg) axes are not tensor axes: a scalar or vector field is its own transpose (as with .T)\n        return mat\n", "    if isinstance(mat, FeArray) and mat._ndim < 2:\n        return mat.T\n")
+mut("C13", "linear-form-vector-values-only", E + "FEM/_forms.py", "            data[:, i, 0] = np.reshape(values_e, -1)", "            data[:, i] = values_e", "R13.8")
+mut("C13", "bilinear-form-scalar-values-only", E + "FEM/_forms.py", "                data[:, i, j] = np.reshape(values_e, -1)", "                data[:, i, j] = values_e", "R13.8")
+mut("C18", "op-no-geometric-tangent", E + "FEM/Operators/NonLinear.py", "    return A_lin + A_geo, residual_e", "    return A_lin, residual_e", "R18.12")
+mut("C18", "op-reorder-transposes", E + "FEM/Operators/NonLinear.py", "            reordered[i] = array[:, ri, rj]", "            reordered[i] = array[:, rj, ri]", "R18.12")
+mut("C18", "op-kv-tangent-swapped", E + "FEM/Operators/NonLinear.py", "    A_mat = material.eta * einsum(subscripts, wJ_e_pg, B_e_pg, Beta_e_pg)", "    A_mat = material.eta * einsum(subscripts, wJ_e_pg, Beta_e_pg, B_e_pg)", "R18.12")
+mut("C18", "op-gonzalez-half", E + "FEM/Operators/NonLinear.py", "        g = inv_dEdE * (B_np1.T @ s_np1 - 0.5 * (B_mid.T @ v) - B_np1.T @ s_mid) - (", "        g = inv_dEdE * (B_np1.T @ s_np1 - (B_mid.T @ v) - B_np1.T @ s_mid) - (", "R18.12")
+mut("C18", "op-gonzalez-alpha-sign", E + "FEM/Operators/NonLinear.py", "    S_hat = s_mid + alpha * dE  # scalar-field", "    S_hat = s_mid - alpha * dE  # scalar-field", "R18.12")
+mut("C18", "op-tq-pairs-Bt-with-itself", E + "FEM/Operators/NonLinear.py", '        "ep,epji,epjk,epkl->eil", wJ_e_pg, B_t, d2Wde_quad, B_np1\n', '        "ep,epji,epjk,epkl->eil", wJ_e_pg, B_t, d2Wde_quad, B_t\n', "R18.12")
+mut("C18", "op-pressure-tangent-sign", E + "FEM/Operators/NonLinear.py", "    K_e[active] = -K_active", "    K_e[active] = K_active", "R18.13")
+mut("C18", "op-pressure-swapped-tangents", E + "FEM/Operators/NonLinear.py", "    n_e_pg = np.cross(dxdr_e_pg, dxds_e_pg)  # area-weighted deformed normal", "    n_e_pg = np.cross(dxds_e_pg, dxdr_e_pg)  # area-weighted deformed normal", "R18.13")
+mut("C18", "op-contact-elementwise-active-set", E + "FEM/Operators/NonLinear.py", "    H_e_pg = (gap_e_pg < 0).astype(float)  # active-set indicator", "    inContact_e = np.asarray(pen_e_pg).max(axis=1) > 0\n    H_e_pg = np.zeros(pen_e_pg.shape)\n    H_e_pg[inContact_e] = 1.0  # active-set indicator", "R18.13")
+mut("C18", "op-gradient-column", E + "FEM/_group_elem.py", '            if dim > 1:\n                grad_e_pg[:, p, :dim, 1] = np.einsum(\n                    "en,end->ed",\n                    dyN_e_pg[:, p],', '            if dim > 1:\n                grad_e_pg[:, p, :dim, 1] = np.einsum(\n                    "en,end->ed",\n                    dxN_e_pg[:, p],', "R18.12")
+same("C18", "op-sum-order", E + "FEM/Operators/NonLinear.py", "    return A_lin + A_geo, residual_e", "    return A_geo + A_lin, residual_e")
+same("C18", "op-residual-two-steps", E + "FEM/Operators/NonLinear.py", '    residual_e = einsum("ep,epi,epij->ej", wJ_e_pg, dWde_e_pg, B_e_pg)\n    return A_lin + A_geo, residual_e', '    wS = einsum("ep,epi->epi", wJ_e_pg, dWde_e_pg)\n    residual_e = einsum("epi,epij->ej", wS, B_e_pg)\n    return A_lin + A_geo, residual_e')
 mut("C18", "build-de-entry", E + "Models/HyperElastic/_state.py", "Add(3, [0, g02, g01, 0, g12, g11, 0, g22, g21], cM)", "Add(3, [0, g01, g02, 0, g12, g11, 0, g22, g21], cM)", "R18.11")
 mut("C18", "green-lagrange-half", E + "Models/HyperElastic/_state.py", "        E_e_pg = 1 / 2 * (C_e_pg - np.eye(3))", "        E_e_pg = (C_e_pg - np.eye(3))", "R18.11")
 same("C18", "build-de-reorder", E + "Models/HyperElastic/_state.py", "            Add(0, [g00, 0, g10, 0])  # xx\n            Add(1, [0, g01, 0, g11])  # yy\n", "            Add(1, [0, g01, 0, g11])  # yy\n            Add(0, [g00, 0, g10, 0])  # xx\n")
@@ -394,6 +417,9 @@ def run(prop, repo_root="/repo", verbose=True):
             continue
         file, old, new, nvars = ed
         jobs.append((dict(prop=prop_r, id=f"rename-locals({nvars}):" + ".".join(qn.split(".")[-2:]), file=file, old=old, new=new), False))
+    only = os.environ.get("SELFTEST_ONLY")
+    if only:  # development aid: run the edits whose id starts with the given prefix
+        jobs = [(e, b) for e, b in jobs if str(e["id"]).startswith(only)]
     if not jobs:
         print(f"selftest: no edits registered for {prop}")
         return 0
